@@ -285,3 +285,81 @@ def even_split(h, mk=None, over=None):
     s.do(("EAdvance", 1)); s.do(("EApply", 1)); s.do(("EApply", 1))
     s.check(s.w.g["commitIndex"][1] == 1, s.w.g["commitIndex"])
     return s.case("even_split", "4 servers: exactly half of the votes / replicas is not a quorum (no leader, no commit)")
+
+
+def stepdown_midfanout(h, mk=None, over=None):
+    """label boundary between AServer and AServerAppendEntries of ONE server: S1 (leader of term 2, deaf so far) is in the middle of its
+    AppendEntries fan-out (idx = 3) when its AServer handles S2's RequestVote request of term 3 and steps down (currentTerm := 3). The loop
+    condition of appendEntriesLoop re-checks state[srvId] = Leader, so the remaining iteration must NOT send: otherwise S3 (follower of
+    term 3 that has applied the entry S2 committed in term 3) gets an AppendEntries request stamped with term 3 from a server that never
+    won it, and replaces the committed entry by S1's uncommitted one."""
+    p = {"n": 3, "nc": 2, "buf": 10, "fifo": True, "explorefail": True, "crashers": [], "keys": 1, "vals": 2}
+    s = (mk or Script)(h, dict(p, **(over or {})))
+    s.elect(1, [2])
+    s.client_request(19, ("put", 1, 1), 1)
+    s.deliver(1, lambda m: m["mtype"] == "cpq")                       # e2 @1 at S1 only
+    s.timeout(2)                                                        # S2: term 3; the request to S1 stays in S1's queue
+    s.deliver(3, lambda m: m["mtype"] == "rvq" and m["msource"] == 2)
+    s.drain(2, lambda m: m["mtype"] == "rvp")
+    s.do(("EBecomeLeader", 2, 0))
+    s.client_request(20, ("put", 1, 2), 2)
+    s.deliver(2, lambda m: m["mtype"] == "cpq")                       # e3 @1 at S2
+    for _ in range(2):                                                  # replicate to S3, commit, tell S3
+        s.append_entries(2, [3])
+        s.drain(3, lambda m: m["mtype"] == "apq" and m["msource"] == 2)
+        s.drain(2, lambda m: m["mtype"] == "app")
+        s.do(("EAdvance", 2)); s.do(("EApply", 2))
+    s.check(s.w.g["commitIndex"][3] == 1 and s.w.g["state"][1] == "leader" and s.w.g["currentTerm"][1] == 2, s.w.g["commitIndex"])
+    # S1 starts its fan-out: idx = 1 (itself), idx = 2 (sent to S2, term 2)
+    ch = 0 if len(s.w.g["appendEntriesCh"][1]) > 0 else 1
+    s.do(("EAELoop", 1, ch))
+    s.do(("EAESend", 1, 0, True))
+    s.do(("EAESend", 1, 0, True))
+    s.deliver(1, lambda m: m["mtype"] == "rvq" and m["msource"] == 2)  # S1's AServer steps down: term 3, follower
+    s.check(s.w.g["state"][1] == "follower" and s.w.g["currentTerm"][1] == 3, s.w.g["state"])
+    s.do(("EAESend", 1, 0, True))                                       # idx = 3: the loop must exit without sending
+    s.check(not any(m["mtype"] == "apq" and m["msource"] == 1 for m in s.w.queue(3)), s.w.queue(3))
+    s.do(("EServerLoop", 3, 0), expect=None)                            # (nothing to read on the unchanged tree)
+    s.do(("EHandleMsg", 3, 0, True), expect=None)
+    s.check(s.w.g["log"][3] == s.w.g["log"][2])
+    return s.case("stepdown_midfanout", "a leader that steps down between two iterations of its AppendEntries fan-out stops sending (state re-checked at the label boundary)")
+
+
+def divergent_vote(h, mk=None, over=None):
+    """up-to-date rule with divergent logs: S1 (deposed leader of term 2) holds two uncommitted entries of term 2; S2 (term 3) has committed
+    one entry of term 3 on {S2,S3}. S1 stands for term 4 and asks S3: its log is LONGER but ends in an OLDER term, so S3 must refuse
+    (logOK == mlastLogTerm > LastTerm(log) \\/ (mlastLogTerm = LastTerm(log) /\\ mlastLogIndex >= Len(log)))."""
+    p = {"n": 3, "nc": 3, "buf": 10, "fifo": True, "explorefail": True, "crashers": [], "keys": 1, "vals": 2}
+    s = (mk or Script)(h, dict(p, **(over or {})))
+    s.elect(1, [2])
+    s.client_request(19, ("put", 1, 1), 1)
+    s.client_request(20, ("put", 1, 2), 1)
+    s.drain(1, lambda m: m["mtype"] == "cpq")                         # two entries of term 2 at S1 only
+    s.timeout(2)                                                        # the request to S1 stays in S1's queue for now
+    s.deliver(3, lambda m: m["mtype"] == "rvq" and m["msource"] == 2)
+    s.drain(2, lambda m: m["mtype"] == "rvp")
+    s.do(("EBecomeLeader", 2, 0))                                       # S2 leader of term 3
+    s.client_request(21, ("put", 1, 1), 2)
+    s.deliver(2, lambda m: m["mtype"] == "cpq")
+    for _ in range(2):
+        s.append_entries(2, [3])
+        s.drain(3, lambda m: m["mtype"] == "apq" and m["msource"] == 2)
+        s.drain(2, lambda m: m["mtype"] == "app")
+        s.do(("EAdvance", 2)); s.do(("EApply", 2))
+    s.check(s.w.g["commitIndex"][3] == 1 and len(s.w.g["log"][1]) == 2 and s.w.g["currentTerm"][1] == 2, s.w.g["commitIndex"])
+    s.deliver(1, lambda m: m["mtype"] == "rvq" and m["msource"] == 2)  # S1 learns term 3, steps down, refuses (its log ends in term 2 > 0)
+    s.drain(2, lambda m: m["mtype"] == "rvp")
+    s.check(s.w.g["state"][1] == "follower" and s.w.g["currentTerm"][1] == 3 and len(s.w.g["log"][1]) == 2, s.w.g["state"])
+    s.timeout(1, drop=[2])                                              # term 4: asks S3 (lastLogTerm 2, lastLogIndex 2)
+    s.deliver(3, lambda m: m["mtype"] == "rvq" and m["msource"] == 1 and m["mterm"] == 4)
+    s.drain(1, lambda m: m["mtype"] == "rvp")
+    s.do(("EBecomeLeader", 1, 0), expect=None)                          # must abort: S3 refused
+    s.check(s.w.g["state"][1] == "candidate", s.w.g["state"])
+    for _ in range(3):                                                  # if S1 were leader it would now overwrite S3's applied entry
+        s.do(("EAELoop", 1, 0), expect=None)
+        for _j in range(4):
+            s.do(("EAESend", 1, 0, True), expect=None)
+        s.do(("EServerLoop", 3, 0), expect=None); s.do(("EHandleMsg", 3, 0, True), expect=None)
+        s.do(("EServerLoop", 1, 0), expect=None); s.do(("EHandleMsg", 1, 0, True), expect=None)
+    s.check(s.w.g["log"][3] == s.w.g["log"][2])
+    return s.case("divergent_vote", "a candidate whose log is longer but ends in an older term is refused by a voter holding a committed entry of a newer term")
